@@ -102,10 +102,13 @@ def oracle_sub(seqs, rows, A):
     named = {}
     for b, p, c in rows:
         named.setdefault((b, p), set()).add(c)
-    if not ASSERT_CONFLICTING_SUBSTITUTIONS and any(len(v) > 1 for v in named.values()):
+    conflict = any(len(v) > 1 for v in named.values())
+    if not ASSERT_CONFLICTING_SUBSTITUTIONS and conflict:
         return None, None, None
     after = [[named.get((n, p), {s[p]}) for p in range(L)] for n, s in enumerate(seqs)]
-    return True, [list(s) for s in seqs], after
+    # conflicting rows cannot all be honoured: raising is accepted, and so is a one-hot result
+    # holding any one of the named characters (see the module docstring)
+    return ('either' if conflict else True), [list(s) for s in seqs], after
 
 
 def oracle_del(seqs, rows, left):
@@ -155,7 +158,7 @@ def check_variant(case):
     R = torch.tensor(rows, dtype=torch.int64).reshape(-1, ncol)
     if kind == 'sub':
         honour, before, after = oracle_sub(seqs, rows, A)
-        status = 'skip' if honour is None else ('ok' if honour else 'refuse')
+        status = 'skip' if honour is None else ('either' if honour == 'either' else ('ok' if honour else 'refuse'))
     elif kind == 'del':
         honour, before, after = oracle_del(seqs, rows, left)
         status = 'ok' if honour else 'refuse'
